@@ -75,9 +75,12 @@ class UFFFT:
 
 def dft_exact(plans, N_allowed=(4,)):
     """documented FFTW semantics with exact rational twiddles (N = 4): r2c Y_k = sum_j x_j e^{-2 pi i jk/N}, k <= N/2; c2r x_j = Y_0 + 2 Re sum_{0<k<N/2} Y_k e^{+2 pi i jk/N} + Re Y_{N/2} (-1)^j"""
-    def tw(N, m):     # e^{-2 pi i m/N} for N = 4
+    RT = z3.Real('sqrt_half')      # N = 8: the one irrational twiddle component, an algebraic number pinned by sqrt_half^2 == 1/2, sqrt_half > 0 (assumptions of the obligation)
+    def tw(N, m):     # e^{-2 pi i m/N} for N = 4 (rational) and N = 8 (in Q(sqrt 1/2))
         m %= N
-        return {0: (1, 0), 1: (0, -1), 2: (-1, 0), 3: (0, 1)}[m * 4 // N] if N in (1, 2, 4) else None
+        if N in (1, 2, 4): return {0: (1, 0), 1: (0, -1), 2: (-1, 0), 3: (0, 1)}[m * 4 // N]
+        if N == 8: return {0: (1, 0), 1: (RT, -RT), 2: (0, -1), 3: (-RT, -RT), 4: (-1, 0), 5: (-RT, RT), 6: (0, 1), 7: (RT, RT)}[m]
+        return None
     def model(ex, st, fr, args, ins):
         p = plans[args[0]]; N = p['n']
         if N not in N_allowed: raise Unsupported('exact DFT model only for N in %s' % (N_allowed,))
